@@ -412,111 +412,103 @@ theorem sufC_refill (st : St) (x : Nat) (ws : List Nat) (hw : st.w < 32) (inv : 
 theorem normPc_vw (st : St) : (normPc st).v = st.v ∧ (normPc st).w = st.w := by
   unfold normPc; split <;> exact ⟨rfl, rfl⟩
 
-theorem drain_bits : ∀ (f : Nat) (st : St), BufInv st.v st.w →
-    match drain f st with
-    | .need s => Suf st.v st.w s.v s.w
-    | .top s => Suf st.v st.w s.v s.w
-    | .done .ok s => Suf st.v st.w s.v s.w
-    | .done _ _ => True := by
+inductive DrOK (v w : Nat) : Drained → Prop
+  | need {s : St} : Suf v w s.v s.w → DrOK v w (.need s)
+  | top {s : St} : Suf v w s.v s.w → DrOK v w (.top s)
+  | ok {s : St} : Suf v w s.v s.w → DrOK v w (.done .ok s)
+  | other {r : Halt} {s : St} : r ≠ .ok → DrOK v w (.done r s)
+
+theorem drOK_trans {v w v1 w1 : Nat} {x : Drained} (h1 : Suf v w v1 w1) (h2 : DrOK v1 w1 x) :
+    DrOK v w x := by
+  cases h2 with
+  | need h => exact .need (suf_trans h1 h)
+  | top h => exact .top (suf_trans h1 h)
+  | ok h => exact .ok (suf_trans h1 h)
+  | other h => exact .other h
+
+theorem drain_bits : ∀ (f : Nat) (st : St), BufInv st.v st.w → DrOK st.v st.w (drain f st) := by
   intro f
   induction f with
-  | zero => intro st _; simp [drain]
+  | zero => intro st _; unfold drain; exact .other (by simp)
   | succ f ih =>
     intro st inv
     unfold drain
-    split
-    · simp only
+    by_cases hw : st.w < 32
+    · rw [if_pos hw]
+      refine .need ?_
       obtain ⟨e1, e2⟩ := normPc_vw st
       rw [e1, e2]
       exact suf_refl _ _ inv
-    · have hb := bitsOK_step st inv
+    · rw [if_neg hw]
+      have hb := bitsOK_step st inv
       cases hs : step st with
       | cont s1 =>
         rw [hs] at hb
         cases hb with
         | cont h1 =>
           simp only
-          split
-          · have := ih s1 h1.1
-            cases hd : drain f s1 with
-            | need s => rw [hd] at this; exact suf_trans h1 this
-            | top s => rw [hd] at this; exact suf_trans h1 this
-            | done r s =>
-              rw [hd] at this
-              cases r with
-              | ok => exact suf_trans h1 this
-              | err c => trivial
-              | ub => trivial
-              | overread => trivial
-          · trivial
+          by_cases hlt : s1.w < st.w
+          · rw [if_pos hlt]; exact drOK_trans h1 (ih s1 h1.1)
+          · rw [if_neg hlt]; exact .other (by simp)
       | top s1 =>
         rw [hs] at hb
         cases hb with
-        | top h1 => exact h1
+        | top h1 => exact .top h1
       | done r s1 =>
         rw [hs] at hb
         cases hb with
-        | ok h1 => exact h1
-        | other hne =>
-          cases r with
-          | ok => exact absurd rfl hne
-          | err c => trivial
-          | ub => trivial
-          | overread => trivial
+        | ok h1 => exact .ok h1
+        | other hne => exact .other hne
 
 /-- What `toTop` returns designates a suffix of the unread bits it was given. -/
-theorem toTop_bits (ws : List Nat) : ∀ (st : St), BufInv st.v st.w →
-    match toTop st ws with
-    | .susp s => SufC st ws s []
-    | .top s rest => SufC st ws s rest
-    | .halt .ok s rest => SufC st ws s rest
-    | .halt _ _ _ => True := by
+inductive OutOK (st : St) (ws : List Nat) : Out → Prop
+  | susp {s : St} : SufC st ws s [] → OutOK st ws (.susp s)
+  | top {s : St} {rest : List Nat} : SufC st ws s rest → OutOK st ws (.top s rest)
+  | ok {s : St} {rest : List Nat} : SufC st ws s rest → OutOK st ws (.halt .ok s rest)
+  | other {r : Halt} {s : St} {rest : List Nat} : r ≠ .ok → OutOK st ws (.halt r s rest)
+
+theorem outOK_trans {a : St} {wa : List Nat} {b : St} {wb : List Nat} {x : Out}
+    (h1 : SufC a wa b wb) (h2 : OutOK b wb x) : OutOK a wa x := by
+  cases h2 with
+  | susp h => exact .susp (sufC_trans h1 h)
+  | top h => exact .top (sufC_trans h1 h)
+  | ok h => exact .ok (sufC_trans h1 h)
+  | other h => exact .other h
+
+theorem toTop_bits (ws : List Nat) : ∀ (st : St), BufInv st.v st.w → OutOK st ws (toTop st ws) := by
   induction ws with
   | nil =>
     intro st inv
     have hd := drain_bits (st.w + 1) st inv
     unfold toTop
     cases h : drain (st.w + 1) st with
-    | need s => rw [h] at hd; exact sufC_of_suf st s [] hd
-    | top s => rw [h] at hd; exact sufC_of_suf st s [] hd
+    | need s => rw [h] at hd; cases hd with | need h1 => exact .susp (sufC_of_suf st s [] h1)
+    | top s => rw [h] at hd; cases hd with | top h1 => exact .top (sufC_of_suf st s [] h1)
     | done r s =>
       rw [h] at hd
-      cases r with
-      | ok => exact sufC_of_suf st s [] hd
-      | err c => trivial
-      | ub => trivial
-      | overread => trivial
+      cases hd with
+      | ok h1 => exact .ok (sufC_of_suf st s [] h1)
+      | other hne => exact .other hne
   | cons x ws ih =>
     intro st inv
     have hd := drain_bits (st.w + 1) st inv
     rw [toTop]
     cases h : drain (st.w + 1) st with
-    | top s => rw [h] at hd; exact sufC_of_suf st s (x :: ws) hd
+    | top s => rw [h] at hd; cases hd with | top h1 => exact .top (sufC_of_suf st s (x :: ws) h1)
     | done r s =>
       rw [h] at hd
-      cases r with
-      | ok => exact sufC_of_suf st s (x :: ws) hd
-      | err c => trivial
-      | ub => trivial
-      | overread => trivial
+      cases hd with
+      | ok h1 => exact .ok (sufC_of_suf st s (x :: ws) h1)
+      | other hne => exact .other hne
     | need s =>
       rw [h] at hd
-      simp only
-      obtain ⟨hw, _⟩ := Lemmas.RetrieveSplit.drain_need _ _ _ h
-      have c1 : SufC st (x :: ws) s (x :: ws) := sufC_of_suf st s (x :: ws) hd
-      have c2 : SufC s (x :: ws) (refill s x) ws := sufC_refill s x ws hw hd.1
-      have c12 := sufC_trans c1 c2
-      have := ih (refill s x) c2.1
-      cases ht : toTop (refill s x) ws with
-      | susp s' => rw [ht] at this; exact sufC_trans c12 this
-      | top s' rest => rw [ht] at this; exact sufC_trans c12 this
-      | halt r s' rest =>
-        rw [ht] at this
-        cases r with
-        | ok => exact sufC_trans c12 this
-        | err c => trivial
-        | ub => trivial
-        | overread => trivial
+      cases hd with
+      | need h1 =>
+        simp only
+        obtain ⟨hw, _⟩ := Lemmas.RetrieveSplit.drain_need _ _ _ h
+        have c1 : SufC st (x :: ws) s (x :: ws) := sufC_of_suf st s (x :: ws) h1
+        have c2 : SufC s (x :: ws) (refill s x) ws := sufC_refill s x ws hw h1.1
+        exact outOK_trans (sufC_trans c1 c2) (ih (refill s x) c2.1)
 
 theorem selectTree_vw (st st1 : St) (h : selectTree st = .ok st1) : st1.v = st.v ∧ st1.w = st.w := by
   unfold selectTree at h
@@ -525,29 +517,35 @@ theorem selectTree_vw (st st1 : St) (h : selectTree st = .ok st1) : st1.v = st.v
   · cases h
   · injection h with h; subst h; exact ⟨rfl, rfl⟩
 
+theorem selectTree_err_ne_ok (st : St) (e : Halt) (h : selectTree st = .error e) : e ≠ .ok := by
+  unfold selectTree at h
+  simp only at h
+  split at h
+  · injection h with h; subst h; simp
+  · cases h
+
+inductive RunOK (st : St) (ws : List Nat) : RunOut → Prop
+  | susp {s : St} : SufC st ws s [] → RunOK st ws (.susp s)
+  | ok {s : St} {rest : List Nat} : SufC st ws s rest → RunOK st ws (.halt .ok s rest)
+  | other {r : Halt} {s : St} {rest : List Nat} : r ≠ .ok → RunOK st ws (.halt r s rest)
+
+theorem runOK_trans {a : St} {wa : List Nat} {b : St} {wb : List Nat} {x : RunOut}
+    (h1 : SufC a wa b wb) (h2 : RunOK b wb x) : RunOK a wa x := by
+  cases h2 with
+  | susp h => exact .susp (sufC_trans h1 h)
+  | ok h => exact .ok (sufC_trans h1 h)
+  | other h => exact .other h
+
 theorem groups_bits : ∀ (n : Nat) (st : St) (ws : List Nat), BufInv st.v st.w →
-    match groups false n st ws with
-    | .susp s => SufC st ws s []
-    | .halt .ok s rest => SufC st ws s rest
-    | .halt _ _ _ => True := by
+    RunOK st ws (groups false n st ws) := by
   intro n
   induction n with
-  | zero => intro st ws _; simp [groups]
+  | zero => intro st ws _; unfold groups; exact .other (by simp)
   | succ n ih =>
     intro st ws inv
     rw [groups]
     cases hsel : selectTree st with
-    | error e =>
-      simp only
-      cases e with
-      | ok =>
-        exfalso
-        unfold selectTree at hsel
-        simp only at hsel
-        split at hsel <;> cases hsel
-      | err c => trivial
-      | ub => trivial
-      | overread => trivial
+    | error e => exact .other (selectTree_err_ne_ok st e hsel)
     | ok st1 =>
       obtain ⟨ev, ew⟩ := selectTree_vw st st1 hsel
       simp only [Bool.false_eq_true, false_and, if_false]
@@ -555,68 +553,39 @@ theorem groups_bits : ∀ (n : Nat) (st : St) (ws : List Nat), BufInv st.v st.w 
         show BufInv st1.v st1.w
         rw [ev, ew]; exact inv
       have hb := toTop_bits ws { st1 with pc := Pc.prefix, j := 0 } inv1
-      have same : ∀ s r, SufC { st1 with pc := Pc.prefix, j := 0 } ws s r → SufC st ws s r := by
-        intro s r h
-        obtain ⟨i, k, e⟩ := h
-        refine ⟨i, k, ?_⟩
-        rw [e]
+      have c0 : SufC st ws { st1 with pc := Pc.prefix, j := 0 } ws := by
+        refine ⟨inv1, 0, ?_⟩
         unfold bitsOf
-        show (bufBits st1.v st1.w ++ _).drop k = _
-        rw [ev, ew]
+        show bufBits st1.v st1.w ++ _ = _
+        rw [ev, ew]; simp
       cases ht : toTop { st1 with pc := Pc.prefix, j := 0 } ws with
-      | susp s => rw [ht] at hb; exact same _ _ hb
+      | susp s => rw [ht] at hb; cases hb with | susp h => exact .susp (sufC_trans c0 h)
       | halt r s rest =>
         rw [ht] at hb
-        cases r with
-        | ok => exact same _ _ hb
-        | err c => trivial
-        | ub => trivial
-        | overread => trivial
+        cases hb with
+        | ok h => exact .ok (sufC_trans c0 h)
+        | other hne => exact .other hne
       | top st2 ws2 =>
         rw [ht] at hb
-        simp only
-        have c1 := same _ _ hb
-        have := ih st2 ws2 hb.1
-        cases hg : groups false n st2 ws2 with
-        | susp s => rw [hg] at this; exact sufC_trans c1 this
-        | halt r s rest =>
-          rw [hg] at this
-          cases r with
-          | ok => exact sufC_trans c1 this
-          | err c => trivial
-          | ub => trivial
-          | overread => trivial
+        cases hb with
+        | top h => exact runOK_trans (sufC_trans c0 h) (ih st2 ws2 h.1)
 
 /-- **The retriever reads sequentially.**  What one call leaves behind — the
 saved buffer and the unread words — is a suffix of the bits it was given. -/
 theorem run_bits (st : St) (ws : List Nat) (inv : BufInv st.v st.w) :
-    match run false st ws with
-    | .susp s => SufC st ws s []
-    | .halt .ok s rest => SufC st ws s rest
-    | .halt _ _ _ => True := by
+    RunOK st ws (run false st ws) := by
   unfold run
   have hb := toTop_bits ws st inv
   cases ht : toTop st ws with
-  | susp s => rw [ht] at hb; exact hb
+  | susp s => rw [ht] at hb; cases hb with | susp h => exact .susp h
   | halt r s rest =>
     rw [ht] at hb
-    cases r with
-    | ok => exact hb
-    | err c => trivial
-    | ub => trivial
-    | overread => trivial
+    cases hb with
+    | ok h => exact .ok h
+    | other hne => exact .other hne
   | top st1 ws1 =>
     rw [ht] at hb
-    simp only
-    have := groups_bits (st1.numSel - st1.g) st1 ws1 hb.1
-    cases hg : groups false (st1.numSel - st1.g) st1 ws1 with
-    | susp s => rw [hg] at this; exact sufC_trans hb this
-    | halt r s rest =>
-      rw [hg] at this
-      cases r with
-      | ok => exact sufC_trans hb this
-      | err c => trivial
-      | ub => trivial
-      | overread => trivial
+    cases hb with
+    | top h => exact runOK_trans h (groups_bits _ st1 ws1 h.1)
 
 end LbzVerif.Lemmas.RetrieveBits
